@@ -483,13 +483,13 @@ def rule_stream(rep: Report, rid="C17.order") -> None:
     rep.ob(rid, "the stream keeps the options it was given (each envelope kind is gated by its own option)",
            len(fi3.params()) > 1 and st3.ext.get((s3, N.GE_OPTIONS)) == ("param", fi3.params()[1]), file=fi3.file, line=fi3.node.lineno, function=fi3.qualname,
            expected="self.options = options", found=fmt(st3.ext.get((s3, N.GE_OPTIONS)), I3) if st3.ext.get((s3, N.GE_OPTIONS)) else "never stored")
-    gen = st3.ext.get((s3, "id_generator"))
+    gen = next((v_ for (b_, a_), v_ in st3.ext.items() if b_ == s3 and isinstance(I3.obj(v_), HInst) and I3.obj(v_).cls.name == "IdGenerator"), None)
     par = st3.ext.get((s3, N.GE_PARSER))
     comp = st3.ext.get((s3, N.GE_COMPILER))
     ok = gen is not None and isinstance(I3.obj(gen), HInst) and I3.obj(gen).cls.name == "IdGenerator"
     b = st3.ext.get((par, N.PARSER_BUILDER)) if par else None
-    ok = ok and b is not None and st3.ext.get((b, "id_generator")) == gen and comp is not None and st3.ext.get((comp, "id_generator")) == gen
+    ok = ok and b is not None and st3.ext.get((b, N.idgen_attr("gherkin.ast_builder.AstBuilder"))) == gen and comp is not None and st3.ext.get((comp, N.idgen_attr("gherkin.pickles.compiler.Compiler"))) == gen
     rep.ob("C11.gen" if rid.startswith("C11") else rid, "the stream's builder and compiler draw from one and the same id generator object", ok,
            file=fi3.file, line=fi3.node.lineno, function=fi3.qualname, expected="Parser(AstBuilder(g)), Compiler(g) with the same g",
-           found={"generator": fmt(gen, I3) if gen else None, "builder's": fmt(st3.ext.get((b, 'id_generator')), I3) if b and st3.ext.get((b, 'id_generator')) else None,
-                  "compiler's": fmt(st3.ext.get((comp, 'id_generator')), I3) if comp and st3.ext.get((comp, 'id_generator')) else None})
+           found={"generator": fmt(gen, I3) if gen else None, "builder's": fmt(st3.ext.get((b, N.idgen_attr("gherkin.ast_builder.AstBuilder"))), I3) if b and st3.ext.get((b, N.idgen_attr("gherkin.ast_builder.AstBuilder"))) else None,
+                  "compiler's": fmt(st3.ext.get((comp, N.idgen_attr("gherkin.pickles.compiler.Compiler"))), I3) if comp and st3.ext.get((comp, N.idgen_attr("gherkin.pickles.compiler.Compiler"))) else None})
